@@ -32,7 +32,7 @@ Record pcue := mkP { p_begin : Q; p_end : Q; p_kids : list elem }.
 (* a cue as observed: begin, end, styled characters and line breaks *)
 Definition cue := (Q * Q * list item)%type.
 
-Inductive exn := ETypeError | EAttributeError | EValueError.
+Inductive exn := ETypeError | EAttributeError | EValueError | EAssertionError.
 
 (* result of a call: a value, `None` returned after LOGGER.fatal, an exception, or "outside the part of
    html.parser's behaviour that the model transcribes" (no claim is made then) *)
@@ -105,7 +105,7 @@ Definition cue_eqb (a b : cue) : bool :=
   q_eqb b1 b2 && q_eqb e1 e2 && list_eqb item_eqb l1 l2.
 Definition exn_eqb (a b : exn) : bool :=
   match a, b with
-  | ETypeError, ETypeError | EAttributeError, EAttributeError | EValueError, EValueError => true
+  | ETypeError, ETypeError | EAttributeError, EAttributeError | EValueError, EValueError | EAssertionError, EAssertionError => true
   | _, _ => false
   end.
 Definition outcome_eqb {A} (f : A -> A -> bool) (a b : outcome A) : bool :=
